@@ -452,6 +452,31 @@ func runC11(c *Ctx) {
 		o := safeEval(func() (system.Collection, error) { return e.Evaluate(input, envVar("v", shared)) })
 		return canonOutcome(o, nil), true
 	}
+	// the two operands of a binary operator are compiled independently (the index of an indexer is evaluated on the indexed
+	// collection by this implementation, so a type-rooted path there is not comparable): an operand that
+	// starts at the resource type means the same on the right as on the left, whatever the left operand visited
+	{
+		operands := []string{"Patient.id", "Patient.active", "Patient.name.given.count()", "Patient.name.first().family", "Patient.name.count() - 1", "Patient.name.given.first()", "Patient.active.not()"}
+		ops := []string{"+", "-", "*", "/", "div", "mod", "&", "=", "!=", "<", ">", "<=", ">=", "and", "or", "xor", "implies"}
+		for _, a := range operands {
+			for _, b := range operands {
+				oa, ob := compileEval(a, input), compileEval(b, input)
+				if oa.Err != nil || ob.Err != nil || oa.Panicked || ob.Panicked {
+					continue
+				}
+				for _, op := range ops {
+					whole := compileEval("("+a+") "+op+" ("+b+")", input)
+					bare := compileEval(a+" "+op+" "+b, input)
+					parts := compileEval("%l "+op+" %r", input, envVar("l", oa.Coll), envVar("r", ob.Coll))
+					c.Observe("operands "+op, true)
+					c.Law(canonOutcome(whole, nil) == canonOutcome(parts, nil), "C11/operand-independent", "a binary operator applies to what its two operands evaluate to on their own", "("+a+") "+op+" ("+b+")", canonOutcome(whole, nil)+" vs operands evaluated apart: "+canonOutcome(parts, nil))
+					if op != "-" && op != "+" && !strings.Contains(a, " - ") && !strings.Contains(b, " - ") { // bare: only where no precedence change arises
+						c.Law(canonOutcome(bare, nil) == canonOutcome(parts, nil), "C11/operand-independent", "a binary operator applies to what its two operands evaluate to on their own", a+" "+op+" "+b, canonOutcome(bare, nil)+" vs operands evaluated apart: "+canonOutcome(parts, nil))
+					}
+				}
+			}
+		}
+	}
 	// bare dotted paths — also with a resource type name in a later position — against the same path written with
 	// parentheses, blanks, comments: a shortcut taken for "simple" sources must not read them differently
 	{
